@@ -103,3 +103,153 @@ def scenario(name, event_lines):
         out += ev
     out.append("end")
     return '\n'.join(out) + '\n'
+
+# ---------------------------------------------------------------------------------------------
+# parsing back (for the shrinker and the replay mode)
+
+def _kv(toks, key, default=None):
+    for t in toks:
+        if t.startswith(key + '='):
+            return t[len(key) + 1:]
+    return default
+
+def _parse_pat(toks):
+    mask = _kv(toks, 'mask', 'none')
+    chain = []
+    for s in (_kv(toks, 'chain', '') or '').split(','):
+        if s:
+            r, q = s.split('/')
+            chain.append((r, q))
+    return Pat(mask=None if mask == 'none' else int(mask), chain=chain,
+               pmask=int(_kv(toks, 'pmask', '0')), dbg=int(_kv(toks, 'dbg', '0')))
+
+def _parse_tree(lines, pos):
+    toks = lines[pos].split()
+    pos += 1
+    if toks[0] == 'unit':
+        return UNIT, pos
+    if toks[0] == 'term':
+        return term(int(_kv(toks, 'm')), _kv(toks, 'kind'), _parse_pat(toks)), pos
+    if toks[0] == 'stub':
+        n = int(_kv(toks, 'n'))
+        pats = [_parse_pat(lines[pos + k].split()) for k in range(n)]
+        return stub(int(_kv(toks, 'm')), pats), pos + n
+    if toks[0] == 'tuple':
+        n = int(_kv(toks, 'n'))
+        cs = []
+        for _ in range(n):
+            c, pos = _parse_tree(lines, pos)
+            cs.append(c)
+        return tup(cs), pos
+    raise ValueError(lines[pos - 1])
+
+def parse_scenario(text):
+    """-> (name, events) where events are ('build', header_line, tree) or ('ev', line)"""
+    lines = [l for l in text.split('\n') if l.strip() and not l.startswith('#')]
+    name = lines[0][len('scenario '):].strip()
+    pos = 1
+    events = []
+    while pos < len(lines) and lines[pos].strip() != 'end':
+        toks = lines[pos].split()
+        if toks[0] == 'build':
+            tree, npos = _parse_tree(lines, pos + 1)
+            events.append(('build', lines[pos], tree))
+            pos = npos
+        else:
+            events.append(('ev', lines[pos]))
+            pos += 1
+    return name, events
+
+def emit_scenario(name, events):
+    out = [f"scenario {name}"]
+    for e in events:
+        if e[0] == 'build':
+            out.append(e[1])
+            out += tree_lines(e[2])
+        else:
+            out.append(e[1])
+    out.append('end')
+    return '\n'.join(out) + '\n'
+
+def split_text(text):
+    """scenario text -> dict name -> text of that scenario"""
+    out = {}
+    cur = None
+    name = None
+    for line in text.split('\n'):
+        if line.startswith('scenario '):
+            name = line[len('scenario '):].strip()
+            cur = [line]
+        elif cur is not None:
+            cur.append(line)
+            if line.strip() == 'end':
+                out[name] = '\n'.join(cur) + '\n'
+                cur = None
+    return out
+
+def _tree_variants(t):
+    """smaller variants of a clause tree"""
+    if t[0] == 'tuple':
+        cs = t[1]
+        for i in range(len(cs)):
+            yield tup(cs[:i] + cs[i + 1:])
+        for i, c in enumerate(cs):
+            if c[0] == 'tuple':
+                yield tup(cs[:i] + c[1] + cs[i + 1:])
+            for v in _tree_variants(c):
+                yield tup(cs[:i] + [v] + cs[i + 1:])
+        if len(cs) == 1:
+            yield cs[0]
+    elif t[0] == 'stub':
+        _, m, pats = t
+        for i in range(len(pats)):
+            if len(pats) > 1:
+                yield stub(m, pats[:i] + pats[i + 1:])
+        for i, p in enumerate(pats):
+            for v in _pat_variants(p):
+                yield stub(m, pats[:i] + [v] + pats[i + 1:])
+    elif t[0] == 'term':
+        _, m, kind, p = t
+        for v in _pat_variants(p):
+            yield term(m, kind, v)
+
+def _pat_variants(p):
+    if len(p.chain) > 1:
+        yield Pat(p.mask, p.chain[:-1], p.pmask, p.dbg)
+    if p.dbg:
+        yield Pat(p.mask, p.chain, p.pmask, 0)
+    if p.pmask:
+        yield Pat(p.mask, p.chain, 0, p.dbg)
+
+def shrink(text, still_fails, max_steps=400):
+    """greedy delta debugging on events and clause trees"""
+    name, events = parse_scenario(text)
+    steps = 0
+    changed = True
+    while changed and steps < max_steps:
+        changed = False
+        # drop events, last first
+        for i in range(len(events) - 1, -1, -1):
+            if events[i][0] == 'build' and sum(1 for e in events if e[0] == 'build') == 1:
+                continue
+            cand = events[:i] + events[i + 1:]
+            steps += 1
+            if still_fails(emit_scenario(name, cand)):
+                events = cand
+                changed = True
+                break
+        if changed:
+            continue
+        for i, e in enumerate(events):
+            if e[0] != 'build':
+                continue
+            for v in _tree_variants(e[2]):
+                cand = events[:i] + [('build', e[1], v)] + events[i + 1:]
+                steps += 1
+                if still_fails(emit_scenario(name, cand)):
+                    events = cand
+                    changed = True
+                    break
+            if changed:
+                break
+    return emit_scenario(name, events)
